@@ -20,13 +20,18 @@ THEOREMS = [
     "C28_commit_head", "C28_commit_head_update", "C28_commit_merge_head_refuted", "C28_commit_amend_merge_refuted",
 ]
 MODEL_FILES = ["Status.v", "IndexOps.v", "CommitHead.v", "WriteTree.v", "TreeObj.v", "IndexGlob.v"]
-MODELLED = ("worktree_status.go doAdd / doAddDirectory / doAddFile (file, directory, All), doUpdateFileToIndex (mode, size, "
-            "mtime from the file), Remove / doRemoveDirectory / doRemoveFile, Move; worktree.go Clean / doClean; "
-            "worktree_commit.go buildTreeHelper.BuildTree (commitIndexEntry, doBuildTree with the never-written h.entries, "
-            "zero-hash skip, sortName) on the flattened state of Model/Status.v (Model/IndexOps.v); spec: git add / add -A / "
-            "rm -r -f / mv / clean -f [-d] / write-tree on the same state (Spec/GitIndexOps.v); not modelled: object "
-            "storage, tree encoding and ids (checked against `git write-tree` by the oracle), empty-directory clean-up, "
-            "AddGlob / RemoveGlob, commit metadata and hooks, autocrlf (C31)")
+MODELLED = ("worktree_status.go doAdd / doAddDirectory / doAddFile (file, directory, All), AddGlob (go-billy util.Glob component by "
+            "component, filepath.Match restricted to literals, '*' and '?'), doUpdateFileToIndex (mode, size, mtime from the file), "
+            "Remove / doRemoveDirectory / doRemoveFile, RemoveGlob (index.Glob's whole-name match, doRemoveFile, "
+            "removeEmptyDirectory incl. its failure on a missing directory), Move; worktree.go Clean / doClean; "
+            "worktree_commit.go Commit: CommitOptions.Validate (parents default to HEAD), Amend, both empty-commit tests, "
+            "updateHEAD (Model/CommitHead.v); buildTreeHelper.BuildTree (commitIndexEntry, doBuildTree with the never-written "
+            "h.entries, zero-hash skip) and copyTreeToStorageRecursive (per-directory sort by sortName, Tree.Encode with "
+            "Tree.Validate from C04's Model/TreeObj.v, SHA-1 object ids from C01's Spec/SHA.v: Model/WriteTree.v) on the "
+            "flattened state of Model/Status.v; spec: git add / add -A / rm -r -f / mv / clean -f [-d] / write-tree "
+            "(cache-tree.c transcription, base_name_compare) / commit [--amend] [--allow-empty] incl. MERGE_HEAD; not "
+            "modelled: object storage, empty-directory clean-up beyond RemoveGlob's, character classes and escapes in glob "
+            "patterns, commit metadata, signing and hooks, autocrlf (C31), CommitOptions.All")
 TRUSTED = [
     "C-impl: the go-git operation on a repository built by harness/porc vs Model/IndexOps on every case (index and worktree listings, commit tree listing)",
     "oracle: the equivalent git command on a copy of the same repository: index (`ls-files -s` read back), worktree files, "
@@ -35,8 +40,10 @@ TRUSTED = [
 ]
 ASSUMPTIONS = ["object ids are injective on the generated contents (content identity stands for the id)",
                "Worktree.Status behaves as Model/Status says (C27; the generator avoids the C27 deviation shapes except where noted)"]
-RULE = ("case = flattened (HEAD, index, worktree) state + one operation from {add file, add dir, add all, rm file, rm dir, mv, "
-        "clean, clean -d, commit} aimed at tracked / untracked / deleted / ignored / replaced-by-directory paths; "
+RULE = ("case = flattened (HEAD, index, worktree) state + one operation from {add file, add dir, add all, add glob, rm file, rm dir, "
+        "rm glob, mv, clean, clean -d, commit (tree listing and tree id), commit on {unborn branch, branch, detached HEAD} x "
+        "{plain, amend of a root / of a commit with a parent / of a merge} x {staged change, nothing staged, empty index} x "
+        "AllowEmptyCommits x merge in progress} aimed at tracked / untracked / deleted / ignored / replaced-by-directory paths; "
         "non-trivial = the operation changes the index, the worktree or produces a tree; distinct by content")
 
 MODE = {"f": 0, "x": 1, "l": 2}
@@ -247,14 +254,14 @@ class Main(Suite):
     name = "main"
     go_cmd = "c28"
     coq_imports = "From GoGit Require Import Model.Status Model.IndexOps Spec.GitIndexOps Model.CommitHead Spec.GitCommitHead Model.WriteTree Spec.GitWriteTree Model.IndexGlob Spec.GitIndexGlob."
-    quick_n = 110
+    quick_n = 128
     thorough_n = 400
     coq_chunk = 60
 
     def gen(self, rng, n, tier):
         cases = []
         ops = ["add", "add", "adddir", "addall", "rm", "rmdir", "mv", "clean", "cleand", "commit", "commit", "commithead", "commithead",
-               "addglob", "rmglob"]
+               "addglob", "rmglob", "addglob"]
         nhead = 0
         for k in range(n):
             kind = ops[k % len(ops)]
@@ -295,11 +302,27 @@ class Main(Suite):
                 if any(c["to"].startswith(q + "/") for q in wt):      # a file where a directory is needed: not a rename question
                     c["to"] = "new"
             elif kind in ("addglob", "rmglob"):
-                # patterns of literals, '*' and '?': whole names, prefixes, one level down, two levels down
+                # patterns of literals, '*' and '?', aimed at what the state holds: a directory with something to add
+                # below it (matched at the top, or one level down), a changed / untracked / tracked file, or anything
                 c["op"] = kind
-                c["path"] = rng.choice(["*", "d*", "?", "a*", "*.o", "d/*", "*/*", "d/?", "a/?", "d/g/*", "*/g/?", "nosuch*", "b", "d",
-                                        "build/*", "*x", "??", "d.?"])
                 c["dirs"] = []          # directory listings of the model: the files only
+                changed = [q for q in wt if q not in idx or idx[q][:2] != wt[q][:2]] + [q for q in idx if q not in wt]
+                src = sorted(idx) if kind == "rmglob" else sorted(changed)
+                nested = [q for q in src if "/" in q]
+                r = rng.random()
+                if nested and r < 0.35:
+                    top = rng.choice(nested).split("/")[0]
+                    c["path"] = rng.choice([top[0] + "*", "*", top, "?" * len(top), top[:-1] + "?"])
+                elif nested and r < 0.55:
+                    q = rng.choice(nested)
+                    d, base = q.rsplit("/", 1)
+                    c["path"] = rng.choice([d + "/*", "*/" + base if d.count("/") == 0 else d + "/" + base[0] + "*", d + "/" + "?" * len(base)])
+                elif src and r < 0.8:
+                    q = rng.choice(src)
+                    c["path"] = rng.choice([q[:-1] + "?", q[0] + "*", "*" + q[-1], q]) if "/" not in q else rng.choice(["*/*", q, q.split("/")[0] + "/*"])
+                else:
+                    c["path"] = rng.choice(["*", "d*", "?", "a*", "*.o", "d/*", "*/*", "d/?", "a/?", "d/g/*", "*/g/?", "nosuch*", "b", "d",
+                                            "build/*", "*x", "??", "d.?"])
             elif kind in ("clean", "cleand"):
                 c["op"], c["dir"] = "clean", kind == "cleand"
             else:
